@@ -475,3 +475,125 @@ func execC04Conc(t *testing.T, c C04Conc) (v Verdict) {
 }
 
 func TestC04Conc(t *testing.T) { checkProp(t, "C04", "concurrent", genC04Conc, execC04Conc) }
+
+// ---- C04 reuse: metadata objects that the application keeps and passes again ----------------
+//
+// An application may keep one metadata.MD and hand the same object to SetHeader / SetTrailer / the outgoing context in
+// call after call. Each call must still observe exactly what was set for it, and the library must leave the
+// application's objects as they were.
+
+type C04Reuse struct {
+	Kind    int        `json:"kind"` // server-streaming or bidi
+	Calls   int        `json:"calls"`
+	Base    []kit.KV   `json:"base"`    // the handler's long-lived header set, passed first in every call
+	TBase   []kit.KV   `json:"tbase"`   // the handler's long-lived trailer set
+	ReqBase []kit.KV   `json:"reqbase"` // the caller's long-lived outgoing metadata
+	Extra   [][]kit.KV `json:"extra"`   // per call: a second header set
+	TExtra  [][]kit.KV `json:"textra"`  // per call: a second trailer set
+	Send    bool       `json:"send"`    // second header set goes through SendHeader instead of SetHeader
+	Ser     bool       `json:"ser"`
+}
+
+func genC04Reuse(t *rapid.T) C04Reuse {
+	pool := &[]string{}
+	c := C04Reuse{Kind: rapid.SampledFrom([]int{kit.KindServer, kit.KindBidi}).Draw(t, "kind"), Calls: rapid.IntRange(2, 5).Draw(t, "calls"), Send: rapid.Bool().Draw(t, "send"), Ser: rapid.Bool().Draw(t, "ser")}
+	c.Base = kit.GenMDPool(t, pool, 4)
+	c.TBase = kit.GenMDPool(t, pool, 4)
+	c.ReqBase = kit.GenMDPool(t, pool, 4)
+	for i := 0; i < c.Calls; i++ {
+		c.Extra = append(c.Extra, kit.GenMDPool(t, pool, 3))
+		c.TExtra = append(c.TExtra, kit.GenMDPool(t, pool, 3))
+	}
+	return c
+}
+
+func execC04Reuse(t *testing.T, c C04Reuse) (v Verdict) {
+	base, tbase, reqbase := kit.MDOf(c.Base), kit.MDOf(c.TBase), kit.MDOf(c.ReqBase)
+	type obs struct {
+		hdr, trl, req metadata.MD
+		err           error
+	}
+	o := make([]obs, c.Calls)
+	var mu sync.Mutex
+	call := 0
+	res := kit.Bubble(t, func() {
+		svc := kit.NewSvc()
+		svc.Stream("r", true, true, func(s grpcServerStream) error {
+			mu.Lock()
+			i := call
+			call++
+			mu.Unlock()
+			if md, ok := metadata.FromIncomingContext(s.Context()); ok {
+				o[i].req = md.Copy()
+			}
+			_ = s.SetHeader(base) // the same object in every call
+			if c.Send {
+				_ = s.SendHeader(kit.MDOf(c.Extra[i]))
+			} else {
+				_ = s.SetHeader(kit.MDOf(c.Extra[i]))
+			}
+			s.SetTrailer(tbase)
+			s.SetTrailer(kit.MDOf(c.TExtra[i]))
+			if _, err := kit.RecvBytes(s); err != nil {
+				return err
+			}
+			return kit.SendBytes(s, []byte{byte(i)})
+		})
+		w := kit.NewWorld(kit.Topo{Kind: "direct", Serialize: c.Ser, Clients: 1}, svc, nil, nil)
+		for i := 0; i < c.Calls; i++ {
+			ctx := metadata.NewOutgoingContext(context.Background(), reqbase) // the same object in every call
+			cs, err := w.Conn(0).NewStream(ctx, kit.StreamDescFor(c.Kind), kit.FullMethod("r"))
+			if err != nil {
+				o[i].err = err
+				continue
+			}
+			_ = kit.SendBytes(cs, []byte("q"))
+			_ = cs.CloseSend()
+			o[i].hdr, _ = cs.Header()
+			for {
+				if _, err := kit.RecvBytes(cs); err != nil {
+					if err.Error() != "EOF" {
+						o[i].err = err
+					}
+					break
+				}
+			}
+			o[i].trl = cs.Trailer()
+			kit.Settle()
+		}
+		w.Shutdown()
+		kit.Settle()
+	})
+	if res.Panic != nil {
+		v.failf("panic: %v\n%s", res.Panic, res.Stack)
+	}
+	for i := range o {
+		if o[i].err != nil {
+			v.failf("call %d failed: %v", i, o[i].err)
+			continue
+		}
+		if msg := kit.MDEqual(o[i].hdr, kit.ModelMD(c.Base, c.Extra[i])); msg != "" {
+			v.failf("call %d (of %d reusing one header object): response headers: %s", i, c.Calls, msg)
+		}
+		if msg := kit.MDEqual(o[i].trl, kit.ModelMD(c.TBase, c.TExtra[i])); msg != "" {
+			v.failf("call %d (of %d reusing one trailer object): trailers: %s", i, c.Calls, msg)
+		}
+		if msg := kit.MDEqual(o[i].req, kit.ModelMD(c.ReqBase), ":authority", "content-type", "user-agent", "grpc-timeout"); msg != "" {
+			v.failf("call %d (of %d reusing one outgoing metadata object): request metadata: %s", i, c.Calls, msg)
+		}
+	}
+	// the application's objects are untouched
+	if msg := kit.MDEqual(base, kit.ModelMD(c.Base)); msg != "" {
+		v.failf("the handler's own header object was modified by the library: %s", msg)
+	}
+	if msg := kit.MDEqual(tbase, kit.ModelMD(c.TBase)); msg != "" {
+		v.failf("the handler's own trailer object was modified by the library: %s", msg)
+	}
+	if msg := kit.MDEqual(reqbase, kit.ModelMD(c.ReqBase)); msg != "" {
+		v.failf("the caller's own outgoing metadata object was modified by the library: %s", msg)
+	}
+	v.Info = kit.CaseInfo{Labels: []string{"md-reuse", fmt.Sprintf("reuse.sendheader=%v", c.Send)}, NonTrivial: len(c.Base) > 0 || len(c.TBase) > 0, Key: fmt.Sprintf("%+v", c), Sample: c}
+	return
+}
+
+func TestC04Reuse(t *testing.T) { checkProp(t, "C04", "reuse", genC04Reuse, execC04Reuse) }
